@@ -121,6 +121,8 @@ class Recorder:
                 e["resp"] = L(r[:100000])  # a notification is tens of octets; a huge one must not choke the validator (its prefix does not decode: verdict)
         for j in range(len(buf)):
             buf[j] = 0xAA
+        # ... and may keep a view of its buffer alive while it calls receive() again (a fixed read buffer)
+        self.__dict__["_held"] = (memoryview(buf), self.__dict__.get("_held", (None,))[0]) if (arg is buf and rnd.random() < 0.4) else (None,)
         try:
             e["msgs"] = [{"k": proj.kind_of(m), "id": m.message_id if abs(m.message_id) < 2**31 else -7, "dig": dig(m)} for m in got]
         except Exception as ex:  # noqa: BLE001
@@ -314,6 +316,102 @@ def scenario_bulk(rec: Recorder, role: str, rnd: random.Random) -> None:
     seg = rnd.choice((100, 512, 1000, 1460, 4096, 37, 8192))
     for p in range(0, len(stream), seg):
         if rec.recv(stream[p:p + seg]) != "ok":
+            break
+
+
+def tiny_unit(kind: str, mid: int, rnd: random.Random) -> t.Tuple[bytes, t.Dict[str, t.Any]]:
+    """A unit of a few dozen octets at most (bursts of thousands of units must stay small for the validator)."""
+    import sansldap as s
+    import sansldap._messages as M
+
+    dn = "".join(rnd.choice("abcdefgh=,") for _ in range(rnd.randrange(0, 8)))
+    if kind == "entry":
+        attrs = [M.PartialAttribute("cn", [bytes([rnd.randrange(256)])])] if rnd.random() < 0.5 else []
+        m: t.Any = M.SearchResultEntry(mid, [], dn, attrs)
+    elif kind == "extReq":
+        m = M.ExtendedRequest(mid, [], "1.2." + str(rnd.randrange(100)), None if rnd.random() < 0.5 else bytes([rnd.randrange(256)]))
+    else:
+        m = M.SearchResultReference(mid, [], ["ldap://" + dn])
+    return unit_of(m, rnd, alt=False)
+
+
+def burst_checks(rep: C.Report, seed: int) -> None:
+    """More than a thousand small units in ONE delivery (a 64 KiB socket read full of search entries).  Judged here, not by
+    SessionTrace.tla: TLC needs minutes for a single receive event with hundreds of units (measured: 100 units 10 s, 200
+    units 96 s), while the expected outcome needs no model - the stream is well-formed and accepted, so exactly the units
+    sent must come back, in order, as equal values, and the session must stay open."""
+    rnd = random.Random(seed * 17 + 3)
+    for role in ("client", "server"):
+        for n in (1100, 3000):
+            s = sess.new_session(role)
+            units: t.List[t.Tuple[bytes, t.Dict[str, t.Any]]] = []
+            try:
+                if role == "client":
+                    mid = s.search_request("dc=x")
+                    s.data_to_send()
+                    units = [tiny_unit(rnd.choice(("entry", "entry", "ref")), mid, rnd) for _ in range(n)]
+                else:
+                    units = [tiny_unit("extReq", j + 1, rnd) for j in range(n)]
+                stream = b"".join(u[0] for u in units)
+                cut = rnd.choice((len(stream), len(stream) - 3))
+                got = list(s.receive(stream[:cut]))
+                if cut < len(stream):
+                    got += list(s.receive(stream[cut:]))
+            except Exception as ex:  # noqa: BLE001
+                kind = C.exc_kind(ex)
+                rep.case(("burst", role, n, kind))
+                if kind != "ProtocolError":
+                    rep.violation(f"OnlyProtocolError/{role}/burst/{kind}", f"{role}.receive of {n} well-formed units in one delivery raised {type(ex).__name__}: {ex}", {"role": role, "units": n}, prop="C05")
+                rep.violation(f"SpuriousError/{role}/burst", f"{role}.receive of {n} well-formed units ({len(b''.join(u[0] for u in units))} octets) in one delivery raised {type(ex).__name__}: {ex}; "
+                              "the same stream in smaller pieces is accepted", {"role": role, "units": n}, prop="C02")
+                continue
+            rep.case(("burst", role, n, len(got)))
+            want = [(u[1]["k"], u[1]["id"], u[1]["dig"]) for u in units]
+            have = [(proj.kind_of(m), m.message_id, dig(m)) for m in got]
+            if len(have) < len(want):
+                for prop in ("C02", "C06"):
+                    rep.violation(f"NoneLostOrHeldBack/{role}/burst", f"{role}.receive returned {len(have)} of {n} complete units delivered in one call", {"role": role, "units": n}, prop=prop)
+            elif have != want:
+                rep.violation(f"ExactMessages/{role}/burst", f"{role}.receive of {n} units in one call returned different messages", {"role": role, "units": n}, prop="C02")
+            if s.state.name != "OPENED":
+                rep.violation(f"StateAfterReceive/{role}/burst", f"{role} is {s.state.name} after a burst of {n} accepted units", {"role": role, "units": n}, prop="C08")
+    rep.add_part("bursts of 1100 / 3000 units in one delivery (judged outside TLC, see strace.burst_checks)", cases=4)
+
+
+def scenario_large_then_split(rec: Recorder, role: str, rnd: random.Random) -> None:
+    """A unit of more than 64 KiB arriving over several deliveries, then small units whose headers are split by the
+    delivery boundaries (only the tag octet, a long-form length cut in the middle)."""
+    rec.new(role, "large-then-split")
+    units: t.List[t.Tuple[bytes, t.Dict[str, t.Any]]] = []
+    import sansldap._messages as M
+
+    big = bytes(rnd.randrange(256) for _ in range(300)) + bytes(rnd.choice((66000, 70000, 140000)))
+    if role == "client":
+        e = rec.call({"op": "send", "k": "searchReq"})
+        rec.drain(None)
+        if e["res"] != "ok":
+            return
+        mid = e["ret"]
+        units.append(unit_of(M.SearchResultEntry(mid, [], "cn=big", [M.PartialAttribute("jpegPhoto", [big])]), rnd, alt=False))
+        for _ in range(rnd.randrange(3, 9)):
+            units.append(small_unit(rnd.choice(("entry", "entry", "ref")), mid, rnd, limit=400))
+        units.append(small_unit("done", mid, rnd, limit=400))
+    else:
+        units.append(unit_of(M.ExtendedRequest(1, [], "1.2.3", big), rnd, alt=False))
+        for j in range(rnd.randrange(3, 9)):
+            units.append(small_unit(rnd.choice(("searchReq", "extReq")), j + 2, rnd, limit=400))
+    rec.stream([u[1] for u in units])
+    stream = b"".join(u[0] for u in units)
+    n0 = len(units[0][0])
+    seg = rnd.choice((16384, 20000, 65536, 4096))
+    cuts = list(range(seg, n0, seg))
+    pos = n0
+    for u in units[1:]:      # every later unit: cut 1, 2 or 3 octets into its header
+        cuts.append(pos + rnd.choice((1, 2, 3)))
+        pos += len(u[0])
+    cuts = sorted({c for c in cuts if 0 < c < len(stream)})
+    for a, z in zip([0] + cuts, cuts + [len(stream)]):
+        if rec.recv(stream[a:z]) != "ok":
             break
 
 
@@ -530,6 +628,8 @@ def drive(seed: int, n_traces: int) -> t.List[t.Dict[str, t.Any]]:
             scenario_ad_notice(rec, rnd)
         if j % 20 == 7:
             scenario_bulk(rec, role, rnd)
+        if j % 40 == 33:
+            scenario_large_then_split(rec, role, rnd)
         if u < 4:
             scenario_stream(rec, role, rnd, garbage_p=0.0, violate_p=0.03)
         elif u < 6:
@@ -562,6 +662,7 @@ def run_traces(rep: C.Report, wd: str, tier: str, seed: int) -> None:
         rep.case((e["ev"], str(e)[:300]), nontrivial=e["ev"] != "new")
     rep.add_part("code->spec trace validation (SessionTrace.tla)", traces=ntr, events=len(events), families=fam, verdicts=len(verdicts))
     report_verdicts(rep, events, verdicts)
+    burst_checks(rep, seed)
     for e in events[1:4]:
         rep.sample({k: (v if not isinstance(v, list) or len(v) < 30 else v[:30] + ["..."]) for k, v in e.items()})
     run_test_traces(rep, wd)
